@@ -62,6 +62,13 @@ def st_case_dump_focus(draw):
 def st_case(draw):
     if draw(st.integers(0, 6)) == 0:
         return draw(st_case_dump_focus())
+    if draw(st.integers(0, 4)) == 0:
+        # the load cases of C04 (model-rooted types with list / nested / forbidding / collecting layouts whose root container is
+        # mutated structurally, sets with unhashable elements ...) through this property's differential oracle
+        from props.c04_only_loaderror import st_case as st_c04_case  # noqa: PLC0415
+        c = draw(st_c04_case().filter(lambda k: not k.get("user") and not any("bigint" in str(o) for o in k["ops"])))
+        return {"dir": "load", "t": c["t"], "datum": c["datum"], "ops": c["ops"], "strict": c["strict"], "provs": c["provs"],
+                "layouts": c["layouts"]}
     direction = "dump" if draw(st.integers(0, 2)) == 0 else "load"
     if direction == "dump":
         t = draw(GEN_NEAR.strategy())
@@ -233,6 +240,20 @@ def check_case(ctx: runner.Ctx, case):  # noqa: C901, PLR0912
 
 
 def explore(ctx: runner.Ctx):
+    # the list-layout table of C04 (root containers of every wrong shape) through this property's differential oracle
+    from props.c04_only_loaderror import list_layout_table_cases  # noqa: PLC0415
+    seen, n_ll = set(), 0
+    for c in list_layout_table_cases():
+        key = (tspec.key_of(c["t"]), repr(c["datum"]), c["strict"])
+        if key in seen:   # the table repeats each (type, datum, strict) per debug mode; all three modes are compared here anyway
+            continue
+        seen.add(key)
+        n_ll += 1
+        if n_ll % ctx.nshards == ctx.shard:
+            runner.guarded(ctx, lambda k: check_case(ctx, k),
+                           {"dir": "load", "t": c["t"], "datum": c["datum"], "ops": c["ops"], "strict": c["strict"], "provs": [],
+                            "layouts": c["layouts"]})
+    ctx.mark_exhaustive(f"list-layout table of C04: {n_ll} (type, datum, strict) triples compared across the three debug modes")
     ctx.given(st_case(), lambda c: check_case(ctx, c), ctx.budget(8000, 300000))
 
 
